@@ -15,6 +15,9 @@
 #include "vh.h"
 
 extern const char *vh_property_id;
+// optional: a harness may offer a systematic (non-random) exploration, e.g. bounded-exhaustive
+// schedule enumeration; `arg` is the tier.  Returns 0 when nothing failed.
+extern "C" int vh_exhaustive(const char *arg) __attribute__((weak));
 
 namespace
 {
@@ -29,7 +32,7 @@ struct LastFail
 
 int main(int argc, char **argv)
 {
-  std::string target, stats, failures = ".", exclude, replay;
+  std::string target, stats, failures = ".", exclude, replay, exhaustive;
   bool list = false;
   for (int i = 1; i < argc; ++i)
   {
@@ -45,6 +48,8 @@ int main(int argc, char **argv)
       exclude = next();
     else if (a == "--replay")
       replay = next();
+    else if (a == "--exhaustive")
+      exhaustive = next();
     else if (a == "--list")
       list = true;
     else
@@ -53,6 +58,7 @@ int main(int argc, char **argv)
       return 2;
     }
   }
+  vh::failures_dir() = failures;
   std::cout.setf(std::ios::unitbuf);
   vh::set_property(vh_property_id);
   vh::set_excluded(exclude);
@@ -93,6 +99,18 @@ int main(int argc, char **argv)
     }
     fprintf(stderr, "replay names unknown target '%s'\n", rtarget.c_str());
     return 2;
+  }
+
+  if (!exhaustive.empty())
+  {
+    if (!vh_exhaustive)
+    {
+      fprintf(stderr, "this harness offers no exhaustive mode\n");
+      return 2;
+    }
+    int r = vh_exhaustive(exhaustive.c_str());
+    vh::stats_write();
+    return r;
   }
 
   int rc_exit = 0;
